@@ -499,11 +499,11 @@ def _match_rows(R, A):
     return idx, dup
 
 
-def _run_boot(obs, xe, model, B, seed, tags, op):
+def _run_boot(obs, xe, model, B, seed, tags, op, reuse=None):
     """One bootstrapper execution under M-RES.  Returns (bootstrapper | None, handed events, decomposed events, backend events)."""
     del _EVENTS[:]
     mon.reset()
-    bs = xe.validation.EOFBootstrapper(n_bootstraps=B, seed=seed)
+    bs = reuse if reuse is not None else xe.validation.EOFBootstrapper(n_bootstraps=B, seed=seed)
     # tqdm's progress bar goes to stderr; the runner reads the workers' stderr pipes one after the other, so a
     # chatty worker would block on a full pipe -> the bar is swallowed here (harness side, nothing patched in xeofs)
     with warnings.catch_warnings(), contextlib.redirect_stderr(io.StringIO()):
@@ -810,6 +810,20 @@ def run_case(case, obs):
     if not case["repro"]:
         return
     rt = {"relation": "same_seed"}
+    # (history) the FIRST bootstrapper object fitted once more: its seed is unchanged, so it must draw the very
+    # same resamples again (a generator created once and consumed across fits would not)
+    if bs is not None:
+        bsr, handed_r, _, _ = _run_boot(obs, xe, model, B, case["bseed"], {}, "fit", reuse=bs)
+        if bsr is not None and len(handed_r) == B:
+            idx_r = _indices(obs, handed_r, A, sname, dict(rt, history="refit_same_object"), label="_refit")
+            if idx_r is not None:
+                same_r = all(np.array_equal(np.sort(a), np.sort(c)) for a, c in zip(idxs, idx_r))
+                obs.check(
+                    "same_object_refit_same_resamples",
+                    same_r,
+                    f"seed {case['bseed']}: a second fit() of the same bootstrapper object drew other resamples",
+                    tags=dict(rt, history="refit_same_object", symptom="resamples_differ"),
+                )
     bs2, handed2, _, back2 = _run_boot(obs, xe, model, B, case["bseed"], {}, "fit")
     if bs2 is not None and obs.check("one_inner_fit_per_member_rerun", len(handed2) == B, f"{len(handed2)} inner fits on the re-run", tags=dict(rt, symptom="member_count")):
         idx2 = _indices(obs, handed2, A, sname, rt, label="_rerun")
